@@ -367,6 +367,78 @@ def r_valuekind(ctx):
             ctx.violation(rid, name, TOK, world.display["Value"].line, "%s prints %r, a spelling that keeps kind and value is %r" % (name, got, expect))
 
 
+TEXT_ALPHABET = ["a", "u", '"', "\\", "/", "'", "{", "}", "\n", "\r", "\t", "\x08", "\x0c", "\x01", "\x7f", "\u00e9", "\U0001F600"]
+SIMPLE_ESC = {"n": "\n", "r": "\r", "t": "\t", "\\": "\\", '"': '"', "'": "'", "/": "/", "b": "\x08", "f": "\x0c"}
+
+
+def decode_text_literal(lit):
+    """reference reading of a printed text literal per RFC 8610 Appendix B / RFC 9682 §2.1: returns the value or
+    raises ValueError when the text is not one well-formed literal"""
+    if len(lit) < 2 or lit[0] != '"' or lit[-1] != '"':
+        raise ValueError("not delimited by double quotes")
+    inner, out, i = lit[1:-1], [], 0
+    while i < len(inner):
+        c = inner[i]
+        if c == '"':
+            raise ValueError("unescaped double quote inside the literal")
+        if c != "\\":
+            out.append(c)
+            i += 1
+            continue
+        if i + 1 >= len(inner):
+            raise ValueError("dangling backslash")
+        n = inner[i + 1]
+        if n in SIMPLE_ESC:
+            out.append(SIMPLE_ESC[n])
+            i += 2
+        elif n == "u" and inner[i + 2:i + 3] == "{":
+            j = inner.find("}", i + 3)
+            if j < 0:
+                raise ValueError("unterminated \\u{")
+            out.append(chr(int(inner[i + 3:j], 16)))
+            i = j + 1
+        elif n == "u":
+            out.append(chr(int(inner[i + 2:i + 6], 16)))
+            i += 6
+        else:
+            raise ValueError("unknown escape \\%s" % n)
+    return "".join(out)
+
+
+def r_text(ctx, tier):
+    rid = "C06.text"
+    ctx.rule(rid, "text literals: for every string over an alphabet of ordinary, quote, backslash, control, non-ASCII and astral "
+                  "characters (all strings up to the tier's length), the interpreted Display body of Type2::TextValue and of "
+                  "Value::TEXT prints one well-formed double-quoted literal whose RFC decoding is the original string", floor=600)
+    import itertools
+    f = ctx.facts
+    world = fm.World(f)
+    b = Builder(f)
+    maxlen = 3 if tier == "thorough" else 2
+    for n in range(0, maxlen + 1):
+        for tup in itertools.product(TEXT_ALPHABET, repeat=n):
+            val = "".join(tup)
+            for kind, node, line in (("Type2::TextValue", b.mk("Type2::TextValue", value=("str", val)), world.display["Type2"].line),
+                                     ("Value::TEXT", ("enum", "Value::TEXT", [("str", val)]), world.display["Value"].line)):
+                name = "%s %r" % (kind, val)
+                try:
+                    got = fm.render_node(world, node)
+                except Unknown as e:
+                    ctx.incomplete_msg(rid, "%s: %s" % (name, e))
+                    continue
+                ctx.site(rid, name, AST if kind.startswith("Type2") else TOK, line, None)
+                try:
+                    back = decode_text_literal(got)
+                    why = None if back == val else "decodes to %r" % back
+                except ValueError as e:
+                    why = str(e)
+                if why:
+                    cls = "quote" if '"' in val else "backslash" if "\\" in val else "other"
+                    ctx.violation(rid, "%s(%s)" % (kind, cls), AST if kind.startswith("Type2") else TOK, line,
+                                  "%s with value %r prints %s: %s" % (kind, val, got, why))
+
+
 def run(ctx):
+    ctx.guarded("C06.text", lambda c: r_text(c, c.tier))
     ctx.guarded("C06.node", r_node)
     ctx.guarded("C06.valuekind", r_valuekind)
